@@ -73,6 +73,15 @@ def main(argv=None):
         for j in jobs:
             print(j.name, j.params, j.pre, j.assume)
         return 0
+    # the thorough tier samples from a larger pool of jobs: keep a seeded selection that fits the tier's time budget
+    generated = len(jobs)
+    cap = getattr(mod, "MAXJOBS", {}).get(tier, 170 if tier == "thorough" else None)
+    if cap and len(jobs) > cap and not a.only:
+        import random as _random
+
+        r = _random.Random(seed * 31 + 7)
+        keep = sorted(r.sample(range(len(jobs)), cap))
+        jobs = [jobs[i] for i in keep]
     budget = getattr(mod, "BUDGET", {}).get(tier)
     deadline = t0 + budget if budget else None
 
@@ -158,7 +167,7 @@ def main(argv=None):
             "samples": samples or [{"note": "no jobs"}],
             "exhaustive": bool(jobs) and counts["CONFIRMED"] == len(jobs),
             "explanation": "states = execution paths of the harness explored symbolically by CrossHair (each path = one equivalence class of inputs); transitions = z3 satisfiability queries; exhaustive=true means every job was 'Confirmed over all paths' inside its bounds",
-            "jobs": {"total": len(jobs), "confirmed": counts["CONFIRMED"], "refuted": counts["REFUTED"], "inconclusive": counts["UNKNOWN"] + counts["VACUOUS"], "vacuous": counts["VACUOUS"], "error": counts["ERROR"]},
+            "jobs": {"generated": generated, "total": len(jobs), "confirmed": counts["CONFIRMED"], "refuted": counts["REFUTED"], "inconclusive": counts["UNKNOWN"] + counts["VACUOUS"], "vacuous": counts["VACUOUS"], "error": counts["ERROR"]},
             "inconclusive_jobs": inconclusive[:50],
             "spurious_models": spurious[:20],
             "solver_s": solver_s,
